@@ -116,8 +116,15 @@ func (k Keeper) CreateRequestContext(
 		batchState, state, responseThreshold, moduleName,
 	)
 
-	txHash := ctx.Context().Value(types.TxHash).([]byte)
-	msgIndex := ctx.Context().Value(types.MsgIndex).(int64)
+	txHash, ok := ctx.Context().Value(types.TxHash).([]byte)
+	if !ok {
+		return nil, sdkerrors.Wrap(sdkerrors.ErrInvalidRequest, "tx hash is not set in the context")
+	}
+
+	msgIndex, ok := ctx.Context().Value(types.MsgIndex).(int64)
+	if !ok {
+		return nil, sdkerrors.Wrap(sdkerrors.ErrInvalidRequest, "msg index is not set in the context")
+	}
 	requestContextID := types.GenerateRequestContextID(txHash, msgIndex)
 	k.SetRequestContext(ctx, requestContextID, requestContext)
 
